@@ -14,6 +14,7 @@ import Driver.Lex
 import Driver.Macro
 import Driver.Decomp
 import Driver.SsbsText
+import Driver.DecompSw
 open Lean Drv
 
 /-- dispatch on the prefix of "op" -/
@@ -36,6 +37,7 @@ def dispatch (j : Json) : R Json := do
   | "macro" => MacroD.handle op j
   | "decomp" => DecompD.handle op j
   | "ssbstext" => SsbsTextD.handle op j
+  | "decompsw" => DecompSwD.handle op j
   | _ => throw s!"unknown op {op}"
 
 partial def loop (h : IO.FS.Stream) (out : IO.FS.Stream) : IO Unit := do
